@@ -648,6 +648,15 @@ func runJob(job CrashJob) mon.ChildResult {
 func runC06(tier, replay string) int {
 	r := mon.NewRun("C06", "fault_enumeration", tier)
 	scs := crashScenarios()
+	if only := os.Getenv("VERIF_C06_ONLY"); only != "" { // debugging aid: restrict to some scenarios
+		var keep []crashScenario
+		for _, sc := range scs {
+			if strings.Contains(","+only+",", ","+sc.Name+",") {
+				keep = append(keep, sc)
+			}
+		}
+		scs = keep
+	}
 	type prepared struct {
 		sc     crashScenario
 		dir    string // pristine world dir
@@ -797,7 +806,9 @@ func runC06(tier, replay string) int {
 	}
 
 	// torn clock files
-	c06TornClocks(r, preps[3].dir)
+	if len(preps) > 3 {
+		c06TornClocks(r, preps[3].dir)
+	}
 
 	// tier 2: syscall-granularity kills under strace
 	// quick runs the syscall tier on the three smallest scenarios only (about 110 kill positions: inside clock,
